@@ -103,6 +103,57 @@ Definition ing_rate : re := RSeq [r_digits; RStr "r/"; r_one_of ["s"; "m"]].
 Definition http_header_name : re :=
   RPlus (RCls (CS false [(45, 45); (48, 57); (65, 90); (97, 122)])).
 
+(* ([^$]|\$[0-9])*\$?   validateStringNoVariables, virtualserver.go:1072: a dollar sign may only be followed by a
+   digit (a capture group) or end the string *)
+Definition no_vars : re :=
+  RCat (RStar (RAlt (RCls (cs_not ["$"])) (RCat (RChr "$") (RCls cs_digit)))) (ROpt (RChr "$")).
+
+(* ---- SELECTOR TABLE for action.proxy.rewritePath: which validator language applies and at which kind of site
+   the value is rendered depends on the kind of the route path and on the kind of location.
+     validator  validateActionProxy (virtualserver.go:1058):  HasPrefix(path, "~") || internal  selects the
+                lenient escaped-string language (for a quoted site), otherwise the strict path language;
+                [internal] is what validateRoute / validateMatch / validateSplits pass: false for the action
+                of the route itself EVEN WHEN THE ROUTE HAS MATCHES, true inside matches and splits
+     generator  generateProxyPassRewrite / generateRewrites (internal/configs/virtualserver.go:2152-2201): a
+                top-level location of a prefix or exact path prints the value RAW, glued after
+                proxy_pass http://upstream ; every internal location (splits, matches, and the default action
+                of a route with matches) and every regular-expression path prints it inside double quotes in
+                a rewrite directive
+   Both halves are compared with the real validator / generator on every run (harness records "selector"). *)
+Inductive path_kind := PKPrefix | PKExact | PKRegex | PKRegexI.
+Inductive loc_kind := LTop | LTopWithMatches | LMatch | LSplit.
+Inductive site_kind := SBareGlued | SInDQ.
+
+Definition is_regex_kind (k : path_kind) : bool :=
+  match k with PKRegex | PKRegexI => true | _ => false end.
+
+Definition validator_internal (l : loc_kind) : bool :=
+  match l with LMatch | LSplit => true | LTop | LTopWithMatches => false end.
+
+Definition generator_internal (l : loc_kind) : bool :=
+  match l with LTop => false | _ => true end.
+
+Definition rewrite_path_lang (k : path_kind) (l : loc_kind) : re :=
+  if is_regex_kind k || validator_internal l then escaped else vs_path.
+
+Definition rewrite_path_site (k : path_kind) (l : loc_kind) : site_kind :=
+  if is_regex_kind k || generator_internal l then SInDQ else SBareGlued.
+
+Definition site_state (s : site_kind) : lstate := match s with SBareGlued => QBare | SInDQ => QDQ end.
+Definition site_ends (s : site_kind) : list lstate := match s with SBareGlued => [QBare; QVar] | SInDQ => [QDQ] end.
+
+(* what the real validator accepts for the field (the empty string means: no rewrite) *)
+Definition rewrite_path_accepts (k : path_kind) (l : loc_kind) (s : string) : bool :=
+  match s with
+  | EmptyString => true
+  | _ => matches (rewrite_path_lang k l) s && matches no_vars s
+  end.
+
+(* the rows in which the language chosen by the validator fits the site chosen by the generator; the two
+   others (default action of a route with matches, prefix or exact path) are finding F65 *)
+Definition rewrite_path_row_ok (k : path_kind) (l : loc_kind) : bool :=
+  match l, is_regex_kind k with LTopWithMatches, false => false | _, _ => true end.
+
 (* ---- the languages a repair would use (see the open findings F28 F29 F54) *)
 
 (* ^[^\s{};\\]*$ *)
@@ -122,7 +173,7 @@ Definition validator_regexes : list (string * re) :=
    ("return_type", return_type); ("grpc_service", grpc_service); ("ts_hash", ts_hash);
    ("size", size); ("offset", offset); ("rate", rate); ("proxy_buffers", proxy_buffers);
    ("time", time); ("limit_req_key", limit_req_key); ("ing_rate", ing_rate);
-   ("http_header_name", http_header_name);
+   ("http_header_name", http_header_name); ("no_vars", no_vars);
    ("grpc_service_fixed", grpc_service_fixed);
    ("ts_hash_fixed", ts_hash_fixed); ("sticky_fixed", sticky_fixed)]%string.
 
